@@ -193,6 +193,14 @@ func runWedge(id string, parts []string) string {
 	l := f["l"]
 	badSt := "sent"
 	switch {
+	case l == "udp" && f["mode"] == "port0":
+		// a valid, answerable query (the same question as the follow-up, already scripted at the fake upstream) from
+		// UDP source port 0: the response is there within milliseconds and cannot be sent
+		env.SetBehaviour(hx.QuestionKey(q), parseBehaviour(f["up"]))
+		if !env.SendRawUDPFromPort0(q) {
+			badSt = "noraw"
+		}
+		time.Sleep(80 * time.Millisecond)
 	case l == "udp":
 		env.SendRawUDP(bad)
 	case l == "tcp" || l == "gnet":
